@@ -31,6 +31,7 @@ type call struct {
 	req         proto.Message
 	opts        CallOpts
 	dropHdr     string
+	freshClient string // non-empty: the call builds a client of its own first, with this value as default header X-Verif-Instance
 }
 
 // obs is what one call observed.
@@ -52,6 +53,7 @@ func (o obs) String() string {
 type world struct {
 	f       *fixture
 	clients map[string]Client
+	newCli  map[string]func(instance string) Client // per service: builds one more client instance, with one more default header
 	byTh    map[int]*Exchange
 	seen    map[int]string
 	rpc     map[int]string
@@ -62,14 +64,14 @@ type world struct {
 
 var c17Shared = KV{"X-Verif-Shared", "s1"}
 
-var c17HeadersOfInterest = []string{"Content-Type", "X-Verif-Call", "X-Verif-Shared", "X-Tenant", "X-Trace", "X-Beta", "X-Api-Key", "X-Request-Id"}
+var c17HeadersOfInterest = []string{"Content-Type", "X-Verif-Call", "X-Verif-Shared", "X-Verif-Instance", "X-Tenant", "X-Trace", "X-Beta", "X-Api-Key", "X-Request-Id"}
 
 func newWorld(u *JobUnit) (*world, error) { return newWorldOpts(u, "all") }
 
 // newWorldOpts: hooks = "all" (every service is registered with the selective error hook), "first" (only the service
 // registered first), "none".
 func newWorldOpts(u *JobUnit, hooks string) (*world, error) {
-	w := &world{clients: map[string]Client{}, byTh: map[int]*Exchange{}, seen: map[int]string{}, rpc: map[int]string{}, fail: map[int]bool{}, useMock: map[int]bool{}, mocks: map[string]Handler{}}
+	w := &world{clients: map[string]Client{}, newCli: map[string]func(string) Client{}, byTh: map[int]*Exchange{}, seen: map[int]string{}, rpc: map[int]string{}, fail: map[int]bool{}, useMock: map[int]bool{}, mocks: map[string]Handler{}}
 	// a selective error hook, as the ErrorHandler documentation allows: validation failures get a status of the hook's choosing
 	// (no body written, no message returned), every other error is left to the defaults
 	hook := func(rw http.ResponseWriter, r *http.Request, err error) proto.Message {
@@ -109,6 +111,10 @@ func newWorldOpts(u *JobUnit, hooks string) (*world, error) {
 			}
 		}
 		w.clients[js.Name] = svc.NewClient("http://verif.test", hc, ClientOpts{DefaultHeaders: defaults, SharedCallOptions: []KV{c17Shared}})
+		mk, base := svc.NewClient, defaults
+		w.newCli[js.Name] = func(instance string) Client {
+			return mk("http://verif.test", hc, ClientOpts{DefaultHeaders: append(append([]KV(nil), base...), KV{"X-Verif-Instance", instance})})
+		}
 		if svc.NewMock != nil {
 			w.mocks[js.Name] = svc.NewMock()
 		}
@@ -138,6 +144,10 @@ func (w *world) do(u *JobUnit, c *call, slot int) obs {
 		w.byTh[th] = ex
 	} else {
 		cl := w.clients[c.svc]
+		if c.freshClient != "" {
+			// a second instance of the service's client, built while the shared one exists (and possibly while it is in use)
+			cl = w.newCli[c.svc](c.freshClient)
+		}
 		res, err := cl.Call(context.Background(), c.method.Name, c.req, c.opts)
 		if err != nil {
 			o.ClientErr = err.Error()
@@ -202,6 +212,11 @@ func c17Alphabet(u *JobUnit) ([]*call, error) {
 			}
 			out = append(out, &call{name: fmt.Sprintf("%s.%s/percall-header+proto", js.Name, m.Name), svc: js.Name, method: m, req: valid,
 				opts: CallOpts{ContentType: "application/x-protobuf", Headers: append(append([]KV(nil), methHdr...), KV{"X-Verif-Call", fmt.Sprintf("c%d", n)})}})
+			if mi == 0 {
+				// a call through a client instance of its own, built with one more default header: what one instance is configured
+				// with must not show on calls made through another instance of the same service
+				out = append(out, &call{name: fmt.Sprintf("%s.%s/fresh-client", js.Name, m.Name), svc: js.Name, method: m, req: valid, opts: CallOpts{Headers: methHdr}, freshClient: fmt.Sprintf("i%d", n)})
+			}
 			if mi == 0 {
 				// one call-option VALUE (built once per client) passed to several calls: first in a call that adds a header option of
 				// its own after it, and alone - what one call adds must not travel with the shared value into another call
